@@ -307,7 +307,17 @@ func (e *c11Env) second(done <-chan struct{}, cancel func(), responder string, a
 			runs = append(runs, "w:"+string(r.params))
 		}
 	}
-	return "sel=" + sel + ";r=" + joinOr(rs, ",") + ";start=" + start + ";run=" + joinOr(runs, "/") + ";res=" + c07ErrClass(*rerr) + note
+	return "sel=" + sel + ";r=" + joinOr(rs, ",") + ";start=" + start + ";run=" + joinOr(runs, "/") + ";res=" + c11ErrClass(*rerr) + note
+}
+
+// c11ErrClass: the typed cause found in a returned error (errors.As), `other` for any untyped error, `ok` for nil.
+func c11ErrClass(err error) string {
+	switch c := c07ErrClass(err); c {
+	case "fail", "timeout", "pending":
+		return "other"
+	default:
+		return c
+	}
 }
 
 func c11Nil(context.Context) error { return nil }
@@ -347,7 +357,7 @@ func init() {
 		}()
 		return e.second(done, cancel, strings.TrimPrefix(a[5], "!"), c07PeerList(a[6]), 0, 0, &rerr)
 	}
-	// exec <self> <t> <sid> <holders> <retryable 0|1> <first: error code | silent> <claimant|-> <arrivals>
+	// exec <self> <t> <sid> <holders> <retryable 0|1> <first: error code | f:error code | silent> <claimant|-> <arrivals>
 	//   real Execute: the first attempt is brought to a Run that returns the given error (or, `silent`, the static
 	//   coordinator never speaks and CoordinatorTimeout passes); then as for `handle`.
 	//   => run1=<c:subset|w:p0|none>;<second attempt as above>
@@ -367,14 +377,30 @@ func init() {
 			return "selfcoord"
 		}
 		cm := e.cm
-		first := func(context.Context) error { return c11Leaf(a[5], self) }
+		// `f:<code>`: while the first Run is in progress the coordinator's fail message arrives (watchExecution fails
+		// first, with an untyped error); the Run, cancelled by that, then fails with <code> — both errors reach
+		// handleError joined by Execute's own pool.
+		withFail := strings.HasPrefix(a[5], "f:")
+		code := strings.TrimPrefix(a[5], "f:")
 		castMark := 0
-		e.proc.onEnter = func(i int) { // the first Run: everything subscribed / broadcast so far belongs to attempt 1
-			if i == 0 && !silent {
-				cm.mu.Lock()
-				cm.mark = cm.next
-				castMark = len(cm.casts)
-				cm.mu.Unlock()
+		setMarks := func() { // everything subscribed / broadcast so far belongs to attempt 1
+			cm.mu.Lock()
+			cm.mark = cm.next
+			castMark = len(cm.casts)
+			cm.mu.Unlock()
+		}
+		failed := make(chan struct{})
+		first := func(ctx context.Context) error {
+			if withFail {
+				<-ctx.Done()
+				setMarks()
+				close(failed)
+			}
+			return c11Leaf(code, self)
+		}
+		e.proc.onEnter = func(i int) {
+			if i == 0 && !silent && !withFail {
+				setMarks()
 			}
 		}
 		if silent {
@@ -426,6 +452,12 @@ func init() {
 			}
 			c11Await(stop)
 			runMark = 1
+		}
+		if withFail && len(e.proc.runList()) > 0 {
+			if r := cm.deliver(sid, comm.TssFailMsg, c, []byte{}, done); r != "ok" {
+				note += ";fail-" + r
+			}
+			c11Await(failed)
 		}
 		run1 := "none"
 		if rs := e.proc.runList(); len(rs) > 0 && runMark == 1 {
@@ -613,7 +645,8 @@ func genC11(g *G) {
 			if ord[1] == self {
 				o2 = c07Tok(ord[2%len(ord)])
 			}
-			firsts := []string{"t" + o1, "t" + o1 + "+" + o2, "m", "c" + o1, "s", "o", "u", "silent"}
+			firsts := []string{"t" + o1, "t" + o1 + "+" + o2, "m", "c" + o1, "s", "o", "u", "silent",
+				"f:t" + o1, "f:m", "f:c" + o2, "f:s", "f:o"}
 			for fi, f := range firsts {
 				for _, retryable := range []string{"1", "0"} {
 					if retryable == "0" && !g.Thorough() && (fi+ci)%3 != 0 {
@@ -623,7 +656,7 @@ func genC11(g *G) {
 						continue
 					}
 					claimant := "-"
-					if f == "s" {
+					if f == "s" || f == "f:s" {
 						claimant = o1
 					}
 					arr := []string{}
@@ -662,12 +695,15 @@ func genC11(g *G) {
 		case 5:
 			f = []string{"o", "u", "m"}[g.Intn(3)]
 		}
+		if f != "silent" && g.Intn(3) == 0 {
+			f = "f:" + f
+		}
 		retryable := "1"
 		if g.Intn(4) == 0 {
 			retryable = "0"
 		}
 		claimant := "-"
-		if f == "s" && g.Bool() {
+		if strings.HasSuffix(f, "s") && len(f) <= 3 && f != "silent" && g.Bool() {
 			claimant = hs[g.Intn(n)]
 		}
 		arr := []string{}
